@@ -178,6 +178,11 @@ struct Tree {
       cur = it->second.get();
     }
     cur->add(parts.back(), p);
+    // a tree that grows after its root was enumerated (optimizer.add(root) early, layers
+    // created later): a no-op for the registry, but anything derived from an enumeration
+    // and kept must follow the growth
+    (void)root.get_all_parameters();
+    (void)root.get_trainable_parameters();
   }
 };
 
